@@ -587,7 +587,7 @@ def run_meta(case, obs):
         before = fieldio.field_json(f)
         old_v = list(f.vdims) if f.vdims is not None else None
         old_m = dict(f.vdim_mapping)
-        old_r = dict(f._r_dim_mapping)
+        old_r = dict(core.private(f, "_r_dim_mapping"))
         if rng.random() < 0.6:
             r = rng.random()
             if r < 0.6:
@@ -611,7 +611,7 @@ def run_meta(case, obs):
                     if f.vdim_mapping.get(nl) != old_m.get(ol):
                         fail(f"relabel: after vdims {old_v} -> {list(f.vdims)} component {k} is mapped to {f.vdim_mapping.get(nl)!r}, before to {old_m.get(ol)!r}")
                         break
-                newr = f._r_dim_mapping
+                newr = core.private(f, "_r_dim_mapping")
                 for d in (dims if len(set(old_m.values())) == len(old_m) else []):
                     i_old = old_v.index(old_r[d]) if old_r.get(d) in old_v else None
                     i_new = list(f.vdims).index(newr[d]) if newr.get(d) in list(f.vdims) else None
